@@ -1098,6 +1098,12 @@ SOFT_TRANSFORM = soft_modules(["RbV.Thm.GenSrcTransformModel"], "the mirror mode
                                 "checked separately)")
 EXTRACTORS["C03"] = EXTRACTORS["C03"] + [SOFT_TRANSFORM]
 
+# genalign: the pairwise aligner (C01; the traceback cell / matrix part also C02) — dialect "align" of tools/rs2lean_genalign.py;
+# Thm/C01.lean imports RbV.Thm.GenSrcPw* and restates the theorems
+TRANSLATOR_MODULES.append("rs2lean_genalign")
+GEN_SRC.update({n: gen_src(n) for n in ("SrcPwTypes", "SrcPwModes", "SrcPwCustom")})
+EXTRACTORS["C01"] = EXTRACTORS["C01"] + [GEN_SRC[n] for n in ("SrcPwTypes", "SrcPwModes", "SrcPwCustom")]
+
 
 def main():
     ap = argparse.ArgumentParser()
